@@ -307,3 +307,332 @@ Theorem C07_cycle_nonvacuous :
   (forall cd, In cd (o_pending SysEx.o2) -> length (c_msgs cd) <= 256).
 Proof. exact SysEx.cycle_example. Qed.
 Print Assumptions C07_cycle_nonvacuous.
+
+Require Verif.Check.C07_check Verif.Check.ExecSys_check Verif.Check.C08_check.
+Require Verif.Proofs.JudgeSoundC07P Verif.Proofs.JudgeSoundExecSysP.
+(* ---- the executable properties of Check/C07_check.v are the property (judge soundness) ---- *)
+(* The judges evaluate [c07_ok] / [c07o_ok] / the quorum test / [sys_safe] + [sys_live] on the IMPLEMENTATION's output.
+   [..._sound]: an output that passes satisfies the clauses above, stated on the observations the implementation
+   accepted ([accepted vals aos]); [..._model_passes]: every output the comparison accepts as the model's passes (no
+   property code without a mismatch code).  Item types: EM = Model/ExecMerge. *)
+Module C07K := Verif.Check.C07_check.
+Module SysK := Verif.Check.ExecSys_check.
+Module JS7 := Verif.Proofs.JudgeSoundC07P.
+Module JSX := Verif.Proofs.JudgeSoundExecSysP.
+
+(* sink C07_merge, (a): on well-formed Go maps (unique keys, also in the token maps and in fChain) outside the recorded
+   class F13e, whatever the comparison accepts as the model's answer passes the executable property *)
+Theorem C07_judge_merge_model_passes :
+  forall (bigF : Z) (dest : N) (fchain : list (N * Z)) (aos : list (N * list N * EM.obs)) (o : C07K.c07_out),
+  (forall o' sup ob, In (o', sup, ob) aos ->
+     EMP.wf_obs ob /\ (NoDup (EM.keys (EM.o_tokens ob)) /\ forall c l, In (c, l) (EM.o_tokens ob) -> NoDup (EM.keys l))) ->
+  NoDup (EM.keys fchain) ->
+  C07K.c07_known (bigF, dest, fchain, aos) = 0%N ->
+  C07K.c07_oeqb (C07K.c07_model (bigF, dest, fchain, aos)) o = true ->
+  C07K.c07_ok (bigF, dest, fchain, aos) o = true.
+Proof. exact JS7.c07_model_equiv_passes. Qed.
+Print Assumptions C07_judge_merge_model_passes.
+
+(* sink C07_merge, (b), commit reports: C07_commit and C07_commit_complete for an arbitrary output that passes *)
+Theorem C07_judge_merge_sound_commit :
+  forall (bigF : Z) (dest : N) (fchain : list (N * Z)) (aos : list (N * list N * EM.obs)) (vals : list bool)
+         (cs : list (N * list EM.commit)) (ms : list (N * list (N * EM.msg))) (ts : list (N * list (N * list EM.tok)))
+         (ks : list N) (ns : list EM.nonce_t),
+  NoDup (map (fun a => fst (fst a)) aos) ->
+  C07K.c07_ok (bigF, dest, fchain, aos) (vals, Ok (cs, ms, ts, ks, ns)) = true ->
+  (forall k l x, In (k, l) cs -> In x l ->
+     In k (EM.keys fchain) /\ EM.c_src x = k /\
+     EMP.supported_by (EMP.commits_at k) (f_plus_1 (EM.f_dest dest fchain)) (C07K.accepted vals aos) x) /\
+  (forall k l, In (k, l) cs -> l <> [] /\ NoDup l) /\
+  (forall k x rs, In k (EM.keys fchain) -> NoDup rs -> rs <> [] ->
+     (forall o, In o rs -> exists ob, In (o, ob) (C07K.accepted vals aos) /\ In x (EMP.commits_at k ob)) ->
+     (f_plus_1 (EM.f_dest dest fchain) <= N.of_nat (length rs))%N ->
+     exists l, In (k, l) cs /\ In x l).
+Proof. exact JS7.c07_sound_commit. Qed.
+Print Assumptions C07_judge_merge_sound_commit.
+
+(* messages: C07_message; of C07_message_complete what Go's map leaves observable (the sequence number is a key) *)
+Theorem C07_judge_merge_sound_message :
+  forall (bigF : Z) (dest : N) (fchain : list (N * Z)) (aos : list (N * list N * EM.obs)) (vals : list bool)
+         (cs : list (N * list EM.commit)) (ms : list (N * list (N * EM.msg))) (ts : list (N * list (N * list EM.tok)))
+         (ks : list N) (ns : list EM.nonce_t),
+  NoDup (map (fun a => fst (fst a)) aos) ->
+  C07K.c07_ok (bigF, dest, fchain, aos) (vals, Ok (cs, ms, ts, ks, ns)) = true ->
+  (forall k l s m, In (k, l) ms -> In (s, m) l ->
+     exists f, alookup k fchain = Some f /\ In (k, f) fchain /\ s = EM.m_seq m /\
+               EMP.supported_by (EMP.msgs_at k) (f_plus_1 f) (C07K.accepted vals aos) m) /\
+  (forall k l, In (k, l) ms -> NoDup (map fst l)) /\
+  (forall k f x rs, In (k, f) fchain -> NoDup rs -> rs <> [] ->
+     (forall o, In o rs -> exists ob, In (o, ob) (C07K.accepted vals aos) /\ In x (EMP.msgs_at k ob)) ->
+     (f_plus_1 f <= N.of_nat (length rs))%N ->
+     exists l m', In (k, l) ms /\ In (EM.m_seq x, m') l).
+Proof. exact JS7.c07_sound_message. Qed.
+Print Assumptions C07_judge_merge_sound_message.
+
+(* token data: C07_token; the slot-index clause (refuted in general by C07_token_non_blocking_refuted: recorded class
+   F13e); C07_token_slot_complete *)
+Theorem C07_judge_merge_sound_token :
+  forall (bigF : Z) (dest : N) (fchain : list (N * Z)) (aos : list (N * list N * EM.obs)) (vals : list bool)
+         (cs : list (N * list EM.commit)) (ms : list (N * list (N * EM.msg))) (ts : list (N * list (N * list EM.tok)))
+         (ks : list N) (ns : list EM.nonce_t),
+  NoDup (map (fun a => fst (fst a)) aos) ->
+  C07K.c07_ok (bigF, dest, fchain, aos) (vals, Ok (cs, ms, ts, ks, ns)) = true ->
+  forall c sl s slots i t, In (c, sl) ts -> In (s, slots) sl -> nth_error slots i = Some t ->
+    exists f, alookup c fchain = Some f /\
+      (EM.t_ready t = true -> EMP.supported_by (EMP.tok_at c s i) (f_plus_1 f) (C07K.accepted vals aos) t) /\
+      ((f_plus_1 f <= C07K.support (fun _ _ : unit => true) (C07K.has_slot c s i) tt (C07K.accepted vals aos))%N \/
+       (C07K.support (fun _ _ : unit => true) (C07K.has_slot c s 0) tt (C07K.accepted vals aos) < f_plus_1 f)%N) /\
+      (forall t', (0 < f_plus_1 f)%N ->
+         (f_plus_1 f <= N.of_nat (length (EMP.supporters EM.tok_eqb (EMP.tok_at c s i) t' (C07K.accepted vals aos))))%N ->
+         (forall t'', (f_plus_1 f <= N.of_nat (length (EMP.supporters EM.tok_eqb (EMP.tok_at c s i) t'' (C07K.accepted vals aos))))%N ->
+                      t'' = t') ->
+         t = t').
+Proof. exact JS7.c07_sound_token. Qed.
+Print Assumptions C07_judge_merge_sound_token.
+
+(* nonces: C07_nonce; of C07_nonce_complete what Go's map leaves observable (the (source, sender) key is present) *)
+Theorem C07_judge_merge_sound_nonce :
+  forall (bigF : Z) (dest : N) (fchain : list (N * Z)) (aos : list (N * list N * EM.obs)) (vals : list bool)
+         (cs : list (N * list EM.commit)) (ms : list (N * list (N * EM.msg))) (ts : list (N * list (N * list EM.tok)))
+         (ks : list N) (ns : list EM.nonce_t),
+  NoDup (map (fun a => fst (fst a)) aos) ->
+  C07K.c07_ok (bigF, dest, fchain, aos) (vals, Ok (cs, ms, ts, ks, ns)) = true ->
+  NoDup (map fst ns) /\
+  (forall x, In x ns -> EMP.supported_by EM.nonce_triples (f_plus_1 (EM.f_dest dest fchain)) (C07K.accepted vals aos) x) /\
+  (forall x rs, NoDup rs -> rs <> [] ->
+     (forall o, In o rs -> exists ob, In (o, ob) (C07K.accepted vals aos) /\ In x (EM.nonce_triples ob)) ->
+     (f_plus_1 (EM.f_dest dest fchain) <= N.of_nat (length rs))%N -> exists v, In (fst x, v) ns).
+Proof. exact JS7.c07_sound_nonce. Qed.
+Print Assumptions C07_judge_merge_sound_nonce.
+
+(* costly ids: C07_costly and C07_costly_complete *)
+Theorem C07_judge_merge_sound_costly :
+  forall (bigF : Z) (dest : N) (fchain : list (N * Z)) (aos : list (N * list N * EM.obs)) (vals : list bool)
+         (cs : list (N * list EM.commit)) (ms : list (N * list (N * EM.msg))) (ts : list (N * list (N * list EM.tok)))
+         (ks : list N) (ns : list EM.nonce_t),
+  NoDup (map (fun a => fst (fst a)) aos) ->
+  C07K.c07_ok (bigF, dest, fchain, aos) (vals, Ok (cs, ms, ts, ks, ns)) = true ->
+  NoDup ks /\
+  (forall x, In x ks ->
+     exists rs, NoDup rs /\ (EM.f_dest dest fchain + 1 <= Z.of_nat (length rs))%Z /\
+                forall o, In o rs <-> exists ob, In (o, ob) (C07K.accepted vals aos) /\ In x (EM.o_costly ob)) /\
+  (forall x rs, NoDup rs -> rs <> [] ->
+     (forall o, In o rs -> exists ob, In (o, ob) (C07K.accepted vals aos) /\ In x (EM.o_costly ob)) ->
+     (EM.f_dest dest fchain + 1 <= Z.of_nat (length rs))%Z -> In x ks).
+Proof. exact JS7.c07_sound_costly. Qed.
+Print Assumptions C07_judge_merge_sound_costly.
+
+(* C07_non_blocking: the merge refuses exactly when fewer than F observations were accepted, and never panics *)
+Theorem C07_judge_merge_sound_nonblocking :
+  forall (bigF : Z) (dest : N) (fchain : list (N * Z)) (aos : list (N * list N * EM.obs)) (vals : list bool)
+         (r : res C07K.mout),
+  C07K.c07_ok (bigF, dest, fchain, aos) (vals, r) = true ->
+  match r with
+  | Ok _ => (bigF <= Z.of_nat (length (C07K.accepted vals aos)))%Z
+  | Err => (Z.of_nat (length (C07K.accepted vals aos)) < bigF)%Z
+  | _ => False
+  end.
+Proof. exact JS7.c07_sound_nonblocking. Qed.
+Print Assumptions C07_judge_merge_sound_nonblocking.
+
+(* sink C07_outcome (Plugin.Outcome, phases GetCommitReports / GetMessages), (a) *)
+Theorem C07_judge_outcome_model_passes :
+  forall (phase : N) (bigF : Z) (dest : N) (fchain : list (N * Z)) (aos : list (N * list N * EM.obs)) (o : C07K.c07o_out),
+  (forall o' sup ob, In (o', sup, ob) aos ->
+     EMP.wf_obs ob /\ (NoDup (EM.keys (EM.o_tokens ob)) /\ forall c l, In (c, l) (EM.o_tokens ob) -> NoDup (EM.keys l))) ->
+  NoDup (EM.keys fchain) ->
+  C07K.c07o_oeqb (C07K.c07o_model (phase, bigF, dest, fchain, aos)) o = true ->
+  C07K.c07o_ok (phase, bigF, dest, fchain, aos) o = true.
+Proof. exact JS7.c07o_model_equiv_passes. Qed.
+Print Assumptions C07_judge_outcome_model_passes.
+
+(* sink C07_outcome, (b): a flattened pending report has f_dest+1 distinct reporters under the key of its own source
+   chain; an agreed report ([all_agreed]: reported under a configured key by f_dest+1 observations, see
+   JudgeSoundC07P.all_agreed_in) is present iff no other agreed report conflicts with it (repair of F76); the messages of
+   the GetMessages phase as in C07_judge_merge_sound_message *)
+Theorem C07_judge_outcome_sound :
+  forall (phase : N) (bigF : Z) (dest : N) (fchain : list (N * Z)) (aos : list (N * list N * EM.obs)) (vals : list bool)
+         (r : res (list EM.commit * list (N * list (N * EM.msg)))),
+  NoDup (map (fun a => fst (fst a)) aos) ->
+  C07K.c07o_ok (phase, bigF, dest, fchain, aos) (vals, r) = true ->
+  match r with
+  | Ok (cs, ms) =>
+      (bigF <= Z.of_nat (length (C07K.accepted vals aos)))%Z /\
+      (if N.eqb phase 1 then
+         ms = [] /\
+         (forall x, In x cs ->
+            In (EM.c_src x) (EM.keys fchain) /\
+            EMP.supported_by (EMP.commits_at (EM.c_src x)) (f_plus_1 (EM.f_dest dest fchain)) (C07K.accepted vals aos) x) /\
+         (forall x, In x (C07K.all_agreed dest fchain (C07K.accepted vals aos)) ->
+            (length (filter (C07K.c_conflicts x) (C07K.all_agreed dest fchain (C07K.accepted vals aos))) <= 1 -> In x cs) /\
+            (1 < length (filter (C07K.c_conflicts x) (C07K.all_agreed dest fchain (C07K.accepted vals aos))) -> ~ In x cs))
+       else
+         cs = [] /\
+         (forall k l s m, In (k, l) ms -> In (s, m) l ->
+            exists f, alookup k fchain = Some f /\ In (k, f) fchain /\ s = EM.m_seq m /\
+                      EMP.supported_by (EMP.msgs_at k) (f_plus_1 f) (C07K.accepted vals aos) m) /\
+         (forall k l, In (k, l) ms -> NoDup (map fst l)) /\
+         (forall k f x rs, In (k, f) fchain -> NoDup rs -> rs <> [] ->
+            (forall o, In o rs -> exists ob, In (o, ob) (C07K.accepted vals aos) /\ In x (EMP.msgs_at k ob)) ->
+            (f_plus_1 f <= N.of_nat (length rs))%N ->
+            exists l m', In (k, l) ms /\ In (EM.m_seq x, m') l))
+  | Err => (Z.of_nat (length (C07K.accepted vals aos)) < bigF)%Z
+  | _ => False
+  end.
+Proof. exact JS7.c07o_sound. Qed.
+Print Assumptions C07_judge_outcome_sound.
+
+(* sink C07_quorum: the judge's test is "answer = model" *)
+Theorem C07_judge_quorum_model_passes :
+  forall i : N * Z * N, N.eqb (C07K.quorum_model i) (C07K.quorum_model i) = true.
+Proof. exact JS7.quorum_model_passes. Qed.
+Print Assumptions C07_judge_quorum_model_passes.
+
+(* Plugin.ObservationQuorum says "reached" (1) exactly from F+1 observations on *)
+Theorem C07_judge_quorum_sound :
+  forall (x : N) (bigF : Z) (cnt o : N),
+  N.eqb (C07K.quorum_model (x, bigF, cnt)) o = true ->
+  (o = 1%N <-> (bigF + 1 <= Z.of_N cnt)%Z) /\ (o = 0%N \/ o = 1%N).
+Proof. exact JS7.quorum_sound. Qed.
+Print Assumptions C07_judge_quorum_sound.
+
+(* ---- sinks ExecSys_cycle_* (sys_judge; sys_judge_noclass in C09): Check/ExecSys_check.v ---- *)
+(* (b) C07_used_needs_quorum_cycle, C07_token_data_cycle and C07_not_costly_cycle for an arbitrary implementation history
+   that passes [sys_safe]: for EVERY three successful rounds GetCommitReports (outcome xa, state 2) -> GetMessages (xb,
+   state 3) -> Filter (xc) of the history, with failed rounds before and between them, and every message mm of a chain
+   report r of xc: the clauses (i) (incl. the interval), carried, (b) the report's proof recomputes the agreed root,
+   (c), (ii), (iii) at mm's OWN sequence number, not-costly, (iv) - stated with [quorum] on the observations the
+   implementation accepted in the three rounds (aos1, aos2, aos3), h = the harness's keccak table. *)
+Theorem C07_judge_sys_sound :
+  forall (g : SysK.scfg) (prev : outcome) (rs : list SysK.sround_in) (o : SysK.sys_out),
+  SysK.sys_safe (g, prev, rs) o = true ->
+  forall (pre : list SysK.sround_in) (ra : SysK.sround_in) (e1 : list SysK.sround_in) (rb : SysK.sround_in)
+         (e2 : list SysK.sround_in) (rc : SysK.sround_in) (post : list SysK.sround_in)
+         (opre : SysK.sys_out) (va : list bool) (xa : outcome) (oe1 : SysK.sys_out) (vb : list bool) (xb : outcome)
+         (oe2 : SysK.sys_out) (vc : list bool) (xc : outcome) (opost : SysK.sys_out),
+    rs = pre ++ ra :: e1 ++ rb :: e2 ++ rc :: post ->
+    o = opre ++ (va, Ok xa) :: oe1 ++ (vb, Ok xb) :: oe2 ++ (vc, Ok xc) :: opost ->
+    length pre = length opre -> length e1 = length oe1 -> length e2 = length oe2 ->
+    (forall vo, In vo oe1 -> snd vo = Err) -> (forall vo, In vo oe2 -> snd vo = Err) ->
+    PS.exec_next (o_state (fold_left (fun acc (vo : SysK.sround_out) => match snd vo with Ok x => x | _ => acc end) opre prev))
+      = Ok 2%N ->
+    o_state xa = 2%N -> o_state xb = 3%N ->
+    NoDup (map (fun a => fst (fst a)) (snd ra)) -> NoDup (map (fun a => fst (fst a)) (snd rb)) ->
+    NoDup (map (fun a => fst (fst a)) (snd rc)) ->
+    let h := Verif.Check.C08_check.thash (Verif.Check.C08_check.mk_htable (SysK.s_table g)) in
+    let dest := SysK.s_dest g in
+    let fc1 := fst ra in let fc2 := fst rb in let fc3 := fst rc in
+    let aos1 := SysK.accepted va (snd ra) in
+    let aos2 := SysK.accepted vb (snd rb) in
+    let aos3 := SysK.accepted vc (snd rc) in
+    Forall2 (fun a b => c_src a = c_src b /\ ExecReport.c_root a = ExecReport.c_root b /\ c_start a = c_start b /\
+                        c_end a = c_end b /\ ExecReport.c_exec a = ExecReport.c_exec b) (o_pending xa) (o_pending xb) /\
+    forall (r : creport) (mm : ExecReport.msg), In r (o_report xc) -> In mm (r_msgs r) ->
+      (ExecReport.m_src mm = r_src r /\
+       exists (x : xcommit) (cd2 : cdata) (xm : xmsg) (fk : Z),
+         quorum (xcommits_of (r_src r)) (f_plus_1 (EM.f_dest dest fc1)) aos1 x /\
+         In (r_src r) (EM.keys fc1) /\ c_src (xc_cd x) = r_src r /\ In (xc_cd x) (o_pending xa) /\
+         In cd2 (o_pending xb) /\ c_src cd2 = c_src (xc_cd x) /\ ExecReport.c_root cd2 = ExecReport.c_root (xc_cd x) /\
+         c_start cd2 = c_start (xc_cd x) /\ c_end cd2 = c_end (xc_cd x) /\
+         ExecReport.c_exec cd2 = ExecReport.c_exec (xc_cd x) /\
+         In mm (c_msgs cd2) /\
+         verify h (map ExecReport.m_id (r_msgs r)) (r_proofs r)
+                (flags_to_bools (r_flags r) (length (r_msgs r) + length (r_proofs r) - 1))
+           = Ok (ExecReport.c_root (xc_cd x)) /\
+         memN (ExecReport.m_seq mm) (ExecReport.c_exec (xc_cd x)) = false /\
+         PS.in_range (c_start (xc_cd x)) (c_end (xc_cd x)) (ExecReport.m_seq mm) = true /\
+         xm_msg xm = mm /\ In (r_src r, fk) fc2 /\ quorum (xmsgs_of (r_src r)) (f_plus_1 fk) aos2 xm /\
+         length (r_msgs r) = length (r_td r) /\
+         (forall p, nth_error (r_msgs r) p = Some mm ->
+            exists bytes f, nth_error (r_td r) p = Some bytes /\ alookup (r_src r) fc2 = Some f /\
+              forall n d, nth_error bytes n = Some d ->
+                quorum (xtok_of (r_src r) (ExecReport.m_seq mm) n) (f_plus_1 f) aos2 (EM.mkTok true d)) /\
+         (forall rs', NoDup rs' ->
+            (forall o', In o' rs' -> exists ob, In (o', ob) aos2 /\ In (ExecReport.m_id mm) (so_costly ob)) ->
+            (Z.of_nat (length rs') < EM.f_dest dest fc2 + 1)%Z)) /\
+      (m_nonce mm = 0%N \/
+       exists v, quorum xnonces_of (f_plus_1 (EM.f_dest dest fc3)) aos3 (r_src r, m_sender mm, v)).
+Proof. exact JSX.sys_safe_cycle_sound. Qed.
+Print Assumptions C07_judge_sys_sound.
+
+(* [sys_safe], ground truth of the harness's world (judged when at most f oracles deviate): nothing the destination shows
+   as executed is in any report of the history *)
+Theorem C07_judge_sys_sound_noreexec :
+  forall (g : SysK.scfg) (prev : outcome) (rs : list SysK.sround_in) (o : SysK.sys_out),
+  SysK.sys_safe (g, prev, rs) o = true -> SysK.s_live g = true ->
+  forall (vals : list bool) (x : outcome) (r : creport) (m : ExecReport.msg),
+    In (vals, Ok x) o -> In r (o_report x) -> In m (r_msgs r) ->
+    ~ In (r_src r, ExecReport.m_seq m) (SysK.s_executed g).
+Proof. exact JSX.sys_safe_noreexec_sound. Qed.
+Print Assumptions C07_judge_sys_sound_noreexec.
+
+(* [sys_live] (second pass of sys_judge, masked only by the recorded class 2 = F13e), ground truth: every eligible pending
+   message of the world is in the report of a Filter outcome of the history *)
+Theorem C07_judge_sys_sound_live :
+  forall (i : SysK.sys_in) (o : SysK.sys_out),
+  SysK.sys_live i o = true -> SysK.s_live (fst (fst i)) = true -> SysK.s_expect (fst (fst i)) <> [] ->
+  exists (vals : list bool) (x : outcome), In (vals, Ok x) o /\ o_state x = 4%N /\
+    forall c s, In (c, s) (SysK.s_expect (fst (fst i))) ->
+      exists r m, In r (o_report x) /\ r_src r = c /\ In m (r_msgs r) /\ ExecReport.m_seq m = s.
+Proof. exact JSX.sys_live_sound. Qed.
+Print Assumptions C07_judge_sys_sound_live.
+
+(* sys_judge_noclass (used by C09, which does not own class 2): outside that class its liveness test is [sys_live] *)
+Theorem C07_judge_sys_noclass_sound :
+  forall (i : SysK.sys_in) (o : SysK.sys_out),
+  (if N.eqb (SysK.sys_known i) 0 then SysK.sys_live i o else true) = true -> SysK.sys_known i = 0%N ->
+  SysK.sys_live i o = true.
+Proof. exact JSX.sys_live_noclass_sound. Qed.
+Print Assumptions C07_judge_sys_noclass_sound.
+
+(* (a), partial - the f+1 clause tests: in a cycle of the MODEL (hypotheses of C07_used_needs_quorum_cycle and of
+   C07_token_data_cycle; fChain a Go map with f >= 0) every message of the Filter report passes the boolean tests of
+   (i), (c) + interval, (ii), (iii), not-costly and (iv) that [sys_safe] evaluates.  Not proved for the model in general:
+   the wiring of [sys_safe] around these tests (owns / reverify against C08's builder, positions in the report, the nonce
+   order of nonces_walk, the walk over arbitrary histories) and the two ground-truth clauses, which are statements about
+   the harness's world; on a concrete cycle the whole of sys_judge / sys_judge_noclass passes: C07_judge_sys_model_passes_example. *)
+Theorem C07_judge_sys_model_passes_partial :
+  forall (hash : N -> N -> N) (zero : N) (leaf_hash : ExecReport.msg -> option N) (enc_size : creport -> option N)
+         (tree_gas : N -> N) (max_size max_gas : N) (nonce_key : EM.nonce_t -> N)
+         (sup : N -> list N) (bigF : Z) (dest : N) (fc1 fc2 fc3 : list (N * Z))
+         (prev o1 o2 o3 : outcome) (aos1 aos2 aos3 : list sao),
+  NoDup (map fst aos1) -> NoDup (map fst aos2) -> NoDup (map fst aos3) ->
+  sys_validated sup dest fc1 aos1 -> sys_validated sup dest fc2 aos2 -> sys_validated sup dest fc3 aos3 ->
+  key_functional aos1 -> key_functional aos2 ->
+  exec_round hash zero leaf_hash enc_size tree_gas max_size max_gas nonce_key bigF dest fc1 prev aos1 = Ok o1 ->
+  o_state o1 = 2%N ->
+  exec_round hash zero leaf_hash enc_size tree_gas max_size max_gas nonce_key bigF dest fc2 o1 aos2 = Ok o2 ->
+  exec_round hash zero leaf_hash enc_size tree_gas max_size max_gas nonce_key bigF dest fc3 o2 aos3 = Ok o3 ->
+  NoDup (EM.keys fc2) -> (0 < f_plus_1 (EM.f_dest dest fc1))%N -> (forall k f, In (k, f) fc2 -> (0 < f_plus_1 f)%N) ->
+  (0 <= EM.f_dest dest fc2)%Z ->
+  (forall cd, In cd (o_pending o1) -> c_td cd = [] /\ (c_start cd < two64)%N /\ (c_end cd < two64)%N) ->
+  forall (r : creport) (mm : ExecReport.msg), In r (o_report o3) -> In mm (r_msgs r) ->
+  exists cd1 cd2,
+    In cd1 (o_pending o1) /\ In cd2 (o_pending o2) /\ SysK.core_eqb cd1 cd2 = true /\
+    SysK.commit_agreed dest fc1 aos1 cd1 = true /\
+    negb (memN (ExecReport.m_seq mm) (ExecReport.c_exec cd1)) &&
+      PS.in_range (c_start cd1) (c_end cd1) (ExecReport.m_seq mm) = true /\
+    N.eqb (ExecReport.m_src mm) (r_src r) = true /\
+    SysK.msg_agreed fc2 aos2 (r_src r) mm = true /\
+    (exists p bytes, nth_error (r_msgs r) p = Some mm /\ nth_error (r_td r) p = Some bytes /\
+                     SysK.tokens_agreed fc2 aos2 (r_src r) (ExecReport.m_seq mm) bytes = true) /\
+    SysK.not_costly (EM.f_dest dest fc2) aos2 (ExecReport.m_id mm) = true /\
+    (m_nonce mm = 0%N \/
+     exists v, SysK.nonce_agreed (EM.f_dest dest fc3) aos3 (r_src r, m_sender mm, v) = true).
+Proof. exact JSX.model_clause_tests. Qed.
+Print Assumptions C07_judge_sys_model_passes_partial.
+
+(* non-vacuity and (a) on a concrete case: the model's history of a cycle of four oracles (oracle 3 deviating in every
+   round) passes both judges completely, and its Filter round reports messages 5 and 6 *)
+Theorem C07_judge_sys_model_passes_example :
+  SysK.sys_safe JSX.SysCase.i (SysK.sys_model JSX.SysCase.i) = true /\
+  SysK.sys_live JSX.SysCase.i (SysK.sys_model JSX.SysCase.i) = true /\
+  JSX.sys_live_noclass JSX.SysCase.i (SysK.sys_model JSX.SysCase.i) = true /\ SysK.sys_known JSX.SysCase.i = 0%N /\
+  SysK.sys_judge [(JSX.SysCase.i, SysK.sys_model JSX.SysCase.i)] = [] /\
+  SysK.sys_judge_noclass [(JSX.SysCase.i, SysK.sys_model JSX.SysCase.i)] = [] /\
+  map (fun vo => match snd vo with
+                 | Ok o => map (fun r => map ExecReport.m_seq (r_msgs r)) (o_report o)
+                 | _ => []
+                 end) (SysK.sys_model JSX.SysCase.i) = [[]; []; [[5; 6]]]%N.
+Proof. exact JSX.SysCase.sys_case_passes. Qed.
+Print Assumptions C07_judge_sys_model_passes_example.
